@@ -486,6 +486,10 @@ def with_defaults(spec, v, mode):
             out[fn] = HY.dval(d) if d is not None else _zero_like(ft, v[fn])
         elif HY.is_h(ft):
             out[fn] = with_defaults(ft, v[fn], "all" if mode == "nested" else mode)
+        elif d is not None and mode == "near" and ft[0] == "scalar" and ft[1].startswith("Float") and not HY.is_factory(d) and float(d) != 0.0:
+            # the neighbouring floating-point number of the declared default: NOT equal to it, must be stored (M12-C19)
+            dt = tg.build(ft)._dtype
+            out[fn] = float(np.nextafter(np.dtype(dt).type(d), np.dtype(dt).type(np.inf)))
         elif d is not None and mode == "all":
             out[fn] = HY.dval(d)
         elif d is not None and mode == "bcast" and ft[0] == "array" and any(x is None for x in ft[2]):
